@@ -202,6 +202,10 @@ class Expander:
             return ("setattr", prev, pathterm, tgt.attr, val)
         if k == "mutcall":
             prev = self._prev(func, d, depth)
+            if str(d.extra).startswith("call:"):
+                # a method call on self: a barrier for attribute reads only; its
+                # arguments are not part of the value of ``self``
+                return ("mut", prev, str(d.extra), ("unknown", "selfcall"))
             call = self.expr(d.value, func, node, {}, depth) if d.value is not None else ("unknown", "del")
             return ("mut", prev, str(d.extra), call)
         if k == "for":
